@@ -44,7 +44,8 @@ TInitDflt ==
 \* (IF, not a disjunction: inside an action TLC explores every disjunct, it does not short-circuit)
 TEvalAccept(p, sol, par, vec, fn, sig, args, cb, ret) ==
   IF ~UseOracle \/ Relaxed("VALUE") THEN TRUE
-  ELSE IF \E k \in DOMAIN par : par[k] = "$unk" THEN TRUE      \* a default never observed: not judged
+  ELSE IF \E k \in DOMAIN par : par[k] = "$unk" \/ par[k] = TMarker(p) THEN TRUE      \* unobserved default / purged parameter: not judged
+  ELSE IF cb # <<>> /\ cb[1] = "opaque" THEN TRUE                  \* a caller-supplied function the specification cannot name
   ELSE OracleAccept(p, sol, par, vec, fn, sig, args, cb, ret)
 
 \* args = <<scalars, direction index, number of index arguments, pair label>>; spatial gradient directions are
